@@ -15,11 +15,23 @@
    theorem below is universally quantified, like over the initial state of every core.
 
    Notation: [named am] = the (binary, core) pairs of an application map; [holds bins m app st b c] =
-   core c holds the complete binary b under app id app in state st; [core_at m c] = state of core c. *)
+   core c holds the complete binary b under app id app in state st; [core_at m c] = state of core c.
+
+   NOT covered by a theorem (judged by the harness only: correspondence model = code, oracle on the code):
+     * binaries whose length is not a multiple of 4 or that need more than 255 blocks (excluded by [binary_ok]):
+       there the code's word count `len // 4 - 1` and 8-bit count / block fields overflow -- a trailing block
+       shorter than a word cannot even be packed (struct.error; only the fact that such a packet is unpackable is
+       proved, Proofs/LoadFuel.v ffd_empty_unpackable) -- and "holds the complete binary" is neither proved nor
+       refuted for them;
+     * buffer sizes that are not a multiple of 4 (the word count then drops up to 3 bytes per block);
+     * the fidelity of the machine of Model/Load.v part 1 to SC&MP rests on the comparison with the Python
+       simulator (trace validator), not on a theorem;
+     * context resolution of app_id / wait (C18), sequence numbers and retransmission (C06), aliasing of the map
+       objects and the kind of iterable holding the cores (the model is a function of the map's content). *)
 From Coq Require Import ZArith List Bool Sorted.
 Require Import Rig.Generated.GenLoad Rig.Model.Base Rig.Model.Regions Rig.Spec.Regions Rig.Model.Load Rig.Spec.Load.
 Require Import Rig.Proofs.LoadMachine Rig.Proofs.LoadCtrl Rig.Proofs.LoadFill Rig.Proofs.LoadLoop
-               Rig.Proofs.LoadWitness Rig.Proofs.LoadFuel Rig.Proofs.LoadTotal Rig.Proofs.Load.
+               Rig.Proofs.LoadWitness Rig.Proofs.LoadFuel Rig.Proofs.LoadTotal Rig.Proofs.Load Rig.Proofs.LoadTrace.
 Import ListNotations.
 Open Scope Z_scope.
 
@@ -102,7 +114,10 @@ Proof. exact flood_fill_aplx_nn. Qed.
 
 (* ------------------------------------------------------------------------------------------------ *)
 (* load_application, both verification modes, whichever chips miss whichever fills (m_sched arbitrary),
-   whatever the cores hold before -- except for the two refuted regions, excluded by exactly these guards:
+   whatever the cores hold before -- except for the two refuted regions, which these guards exclude (they are
+   sufficient, not the weakest possible: no_requested_waiting also excludes a requested core that waits under
+   ANOTHER app id or whose chip does hear the fill, cases in which the code may still behave correctly; the
+   refutation theorems below show that neither guard can simply be dropped):
      no_requested_waiting   no requested core is in `wait` before the call (both modes: the per-core
                             check reads cpu_state only);
      no_other_waiting       count mode only: no core that is not requested waits under the app id.
@@ -116,7 +131,7 @@ Proof. exact flood_fill_aplx_nn. Qed.
    Otherwise SpiNNakerLoadingError whose map names exactly the requested cores that do not hold their
    binary, nothing else having changed; there were at most n_tries + 1 attempts; each attempt (in
    particular each retry) was addressed to exactly the requested cores that did not hold their binary at
-   that moment ([att_ok]; the packets of an attempt are those of C09_flood_fill_map for that map). *)
+   that moment ([att_ok], Spec/Load.v; C09_load_packets_per_attempt ties these attempts to the packets sent). *)
 Theorem C09_load_returns_iff_loaded :
   forall bins c w am a c' w' out atts,
     machine_wf (w_m w) -> ctrl_wf c (w_m w) -> map_wf am -> bins_ok (m_buffer (w_m w)) bins ->
@@ -140,6 +155,22 @@ Theorem C09_load_returns_iff_loaded :
     /\ Z.of_nat (length atts) <= Z.max 0 (a_tries a + 1)
     /\ Forall (att_ok bins (a_app a) am) atts.
 Proof. exact load_application_spec. Qed.
+
+(* "... a bounded number of attempts that re-send only to the cores still missing": the packets the call sends
+   are, attempt by attempt of [atts] (which the theorem above characterises as addressed to exactly the cores
+   missing at that moment), one flood fill of the attempt's map -- [fills_ok]: one well formed fill per entry,
+   selecting exactly the entry's cores -- followed only by packets that are not flood-fill packets (count,
+   per-core reads); after the last attempt only the start signal ([attempts_ok], Spec/Load.v). *)
+Theorem C09_load_packets_per_attempt :
+  forall bins c w am a c' w' out atts,
+    machine_wf (w_m w) -> ctrl_wf c (w_m w) -> map_wf am -> bins_ok (m_buffer (w_m w)) bins ->
+    0 <= a_app a < 256 ->
+    no_requested_waiting (w_m w) am ->
+    (a_count a = true -> no_other_waiting (w_m w) am (a_app a)) ->
+    load_application bins c w am a = Ok (c', w', out, atts) ->
+    exists ps, sent w' = sent w ++ ps
+               /\ attempts_ok (m_buffer (w_m w)) (m_base (w_m w)) bins atts ps.
+Proof. exact load_application_packets. Qed.
 
 (* The content of the error.  SpiNNakerLoadingError(unloaded) keeps the map as .app_map and its message lists
    "(x, y, p)" for every core of every chip of every binary of that map ([error_cores]; the shape of __init__ /
@@ -269,6 +300,23 @@ Example C09_hypotheses_satisfiable :
        /\ length atts = 2%nat
        /\ core_at (w_m w') (1, 0, 3) = Some (mkCore STATE_RUN 30 ex_bin1).
 Proof. exact fresh_example. Qed.
+
+(* Several binaries, several blocks: a 40-byte binary (two full 16-byte blocks and a short last block of 8 bytes)
+   on two chips and a one-block binary on two cores of chip (1, 0), which misses the first fill of the second
+   binary: every guard holds, 3 blocks are announced for the first binary, the second attempt is addressed to the
+   second binary's cores only, five data packets are sent in all, and both binaries end up running. *)
+Example C09_two_binaries_multi_block :
+  machine_wf two_machine /\ ctrl_wf ctrl_init two_machine /\ map_wf two_map
+  /\ bins_ok (m_buffer two_machine) two_bins /\ no_requested_waiting two_machine two_map
+  /\ ff_n_blocks (zlen ex_bin40) (m_buffer two_machine) = 3
+  /\ exists c' w' atts,
+       load_application two_bins ctrl_init (mkWorld two_machine []) two_map (state_args 30)
+       = Ok (c', w', Returned, atts)
+       /\ map fst atts = [two_map; [(1, [((1, 0), [2; 3])])]]
+       /\ core_at (w_m w') (1, 0, 5) = Some (mkCore STATE_RUN 30 ex_bin40)
+       /\ core_at (w_m w') (1, 0, 3) = Some (mkCore STATE_RUN 30 ex_bin1)
+       /\ length (filter (fun q => q_cmd q =? CMD_FFD) (sent w')) = 5%nat.
+Proof. exact two_binaries_example. Qed.
 
 Example C09_total_guards_satisfiable :
   machine_answers fresh_machine /\ map_present ex_bins fresh_machine k3_map.
